@@ -1,8 +1,8 @@
 package props
 
 import (
-	"google.golang.org/protobuf/proto"
 	"fmt"
+	"google.golang.org/protobuf/proto"
 	"math/rand"
 
 	"github.com/protobom/protobom/pkg/sbom"
@@ -207,7 +207,7 @@ func init() {
 			}
 			return out
 		},
-		CaseCPU:     60,
+		CaseCPU: 60,
 	})
 }
 
